@@ -40,6 +40,8 @@ claimed = {
          "Real/Int arithmetic; automatic harvest, automatic N and the crop switch are outside.", "A3 C16"),
  "C18": ("Assignment part of ReadCropParamYml lifted; for every overridable base, stage and partition parameter: state after file+override equals state after reading the edited parameter set, or equals the no-override state (rejected as a whole).",
          "yaml.Unmarshal replaced by an arbitrary parameter set with 2 organs x 2 stages; 'results' reduced to the parameter state handed to the crop model.", "A3 C18"),
+ "C09": ("Reduced to the parts of PhytoOut that can be cut out as regions: the development stage index never decreases, advances by at most one and only when the stage's temperature sum is reached, never beyond the last stage, and records the phenology day; the rooting depth after a day is within the profile and the soil's root limit for any value of the root function.",
+         "Organ masses, LAI, assimilate pool, N concentrations and stress factors (the growth part: ~60 transcendental calls, quotients of season-long sums) are outside; root() stubbed by arbitrary results.", "A3 C09"),
 }
 props = [json.loads(l) for l in open(os.path.join(ROOT, 'properties.jsonl'))]
 reasons = {}
